@@ -4,7 +4,7 @@ left, contiguous ids, conservation) on implementation outputs; generated tables 
 collections; thorough: the shipped Diels-Alder collections completely."""
 import zlib
 
-from common import Atom, Case, Run, call_impl, prepare, enc_graph, enc_label, sx, ImplError
+from common import Atom, Case, Run, call_impl, prepare, enc_graph, enc_label, sx, ImplError, load_known_findings
 from c13 import rand_pattern, parse_contract_ok, check_model_spec, finalize_model_spec
 
 import genparsed
@@ -149,17 +149,44 @@ def impl_build(core, groups, multi):
     return sorted_canon(build_graphs(ProxyGraph(core), groups, Parser(use_multigraph=multi)))
 
 
-def impl_generate(cores, groups, aam, multi, history=False):
+def impl_generate(cores, groups, aam, multi, history=False, protocol=None):
     """the enumeration of iter(Proxy).  With `history`, a first proxy built from the SAME core
     ProxyGraph objects and group objects is exhausted before (a proxy's enumeration must not depend
-    on proxies used earlier in the process); the enumeration of the second one is returned."""
+    on proxies used earlier in the process); the enumeration of the second one is returned.
+    `protocol` = how the one proxy object is consumed (the enumeration is a property of the proxy, not of the
+    way its iterator protocol is driven): None = list(proxy); ["next", k] = k samples with next(proxy), the rest
+    with a for-loop over the same proxy; ["next_list", k] = k with next(), the rest with list(proxy);
+    ["loops", k] = a for-loop left with `break` after k samples, then a second for-loop;
+    ["get_next", k] = k samples with proxy.get_next(), the rest with a for-loop.  The concatenation is returned."""
     from fgutils.parse import Parser
     from fgutils.proxy import Proxy, ProxyGraph
     core_pgs = [ProxyGraph(c) for c in cores]
     if history:
         first = list(Proxy(list(core_pgs), groups, enable_aam=aam, parser=Parser(use_multigraph=multi)))
         del first
-    return sorted_canon(list(Proxy(list(core_pgs), groups, enable_aam=aam, parser=Parser(use_multigraph=multi))))
+    p = Proxy(list(core_pgs), groups, enable_aam=aam, parser=Parser(use_multigraph=multi))
+    if protocol is None:
+        return sorted_canon(list(p))
+    kind, k = protocol
+    out = []
+    if kind == "loops":
+        if k > 0:
+            for g in p:
+                out.append(g)
+                if len(out) >= k:
+                    break
+    else:
+        try:
+            for _ in range(k):
+                out.append(p.get_next() if kind == "get_next" else next(p))
+        except StopIteration:
+            return sorted_canon(out)
+    if kind == "next_list":
+        out += list(p)
+    else:
+        for g in p:
+            out.append(g)
+    return sorted_canon(out)
 
 
 def impl_next(g, groups, multi):
@@ -204,9 +231,28 @@ def run(tier, seed):
     contract = {}
     cases = table_cases(r, contract)
 
+    k7 = next((f for f in load_known_findings() if f.get("id") == "K7" and f.get("status") == "open"), None)
+
+    def classify_known(o):
+        """K7: an `iter(Proxy)` enumeration that fails the UNCONDITIONAL bond-conservation clause although it is
+        exactly the model's enumeration, passes the clause restricted to samples whose build_graphs pre-image
+        has no parallel bonds (model flag sideOk/noParallel) and the model counts at least one pre-image WITH
+        parallel bonds.  Anything else that fails is a violation."""
+        if k7 is None or not o.case.tags or o.case.tags[0] != "generate":
+            return None
+        if not (o.ok_reply and o.spec_fail and o.corr and len(o.extra) >= 4):
+            return None
+        try:
+            n_fail = int(o.extra[2])
+        except (TypeError, ValueError):
+            return None
+        if o.extra[3] == "1" and n_fail > 0:
+            return k7
+        return None
+
     def flush():
         # evaluated in batches so that a thorough run does not hold every case in memory
-        outs = r.evaluate(cases)
+        outs = r.evaluate(cases, classify_known=classify_known)
         check_model_spec(r, outs)
         for o in outs:
             if o.ok_reply and o.case.tags and o.case.tags[0] == "build" and o.case.in_domain and len(o.extra) >= 4:
@@ -223,10 +269,13 @@ def run(tier, seed):
                     n_res = n_fail = 0
                 r.count("iter_results_total", n_res)
                 r.count("iter_results_side_condition_fails(parallel_bonds_collapse)", n_fail)
-                r.count("iter_results_bond_conservation_checked_on_impl", n_res - n_fail)
+                r.count("iter_results_bond_conservation_checked_on_impl", n_res)      # the clause is applied to ALL samples
                 r.count("iter_runs_total")
                 if n_fail:
                     r.count("iter_runs_with_side_condition_failure")
+                if o.case.in_domain and o.spec_fail:
+                    r.count("iter_runs_failing_unconditional_bond_conservation:" +
+                            ("K7(known finding)" if classify_known(o) is not None else "VIOLATION"))
             if o.ok_reply and o.case.tags and o.case.tags[0].startswith("table:"):
                 r.notes[o.case.tags[0]] = {"refs_match": o.model, "totalExp_generated_table": o.extra[0] if o.extra else None,
                                            "totalExp_parsed_config": o.extra[1] if len(o.extra) > 1 else None,
@@ -294,9 +343,16 @@ def run(tier, seed):
         except Exception:
             continue
         history = rng.random() < 0.35
-        out = call_impl(impl_generate, cores, groups, aam, multi, history)
-        cases.append(Case([Atom("C14"), Atom("generate"), cfg, core_gs, aam], out, meta=dict(meta, cores=cores, aam=aam, history=history), in_domain=in_dom,
-                          tags=("generate", "aam" if aam else "no_aam", "cores=%d" % len(cores), "after_earlier_proxy" if history else "fresh_process_state"),
+        # iteration protocol: half of the enumerations are drawn partly with next()/get_next()/a broken for-loop and
+        # finished with a (second) for-loop or list() over the SAME proxy object
+        protocol = None
+        if rng.random() < 0.5:
+            protocol = [rng.choice(["next", "next_list", "loops", "get_next"]), rng.randint(1, 4)]
+        out = call_impl(impl_generate, cores, groups, aam, multi, history, protocol)
+        cases.append(Case([Atom("C14"), Atom("generate"), cfg, core_gs, aam], out,
+                          meta=dict(meta, cores=cores, aam=aam, history=history, protocol=protocol), in_domain=in_dom,
+                          tags=("generate", "aam" if aam else "no_aam", "cores=%d" % len(cores), "after_earlier_proxy" if history else "fresh_process_state",
+                                "protocol=%s" % (protocol[0] if protocol else "list(proxy)")),
                           nontrivial_key=("gen", sx(cfg), tuple(cores), aam)))
         if len(cases) >= 150:
             flush()
@@ -312,7 +368,14 @@ def run(tier, seed):
     cases.append(Case([Atom("C14"), Atom("generate"), cfg, [enc_graph(Parser(use_multigraph=True).parse("C{any}"))], False], out,
                       meta={"collection": "common_groups", "core": "C{any}"}, tags=("generate", "shipped:common"),
                       nontrivial_key=("gen", "common")))
+    out = call_impl(impl_generate, ["C{any}", "N{any}"], groups, True, True, False, ["next", 3])
+    cases.append(Case([Atom("C14"), Atom("generate"), cfg, [enc_graph(Parser(use_multigraph=True).parse(c)) for c in ("C{any}", "N{any}")], True], out,
+                      meta={"collection": "common_groups", "cores": ["C{any}", "N{any}"], "protocol": ["next", 3]},
+                      tags=("generate", "shipped:common", "protocol=next"), nontrivial_key=("gen", "common2")))
     flush()
+    # documented domain restriction of "... and then stops" (evidence only, never decides the verdict): a
+    # user-supplied core ProxyGroup with the default sampler GraphSampler(unique=False) is re-sampled for ever
+    r.notes["non_unique_core_sampler_never_stops"] = non_stopping_core_probe()
     if tier == "thorough":
         for which in ("da_pos", "da_neg"):
             thorough_shipped(r, which, contract)
@@ -328,6 +391,21 @@ def run(tier, seed):
     r.assumptions = [
         "replace_node as modelled in Model/C13.lean (validated exactly by the C13 check); patterns enter as data parsed by the real parser",
         "group samplers are the default non-restricting GraphSampler(unique=False); the core group uses unique=True",
+        "the enumeration is a property of the proxy object, not of how its iterator protocol is driven: half of the iter(Proxy) cases "
+        "draw the first 1-4 samples with next(proxy) / proxy.get_next() / a for-loop left with break and the rest with a (second) "
+        "for-loop or list() over the same object; the concatenation must be the full enumeration (tags protocol=*)",
+        "DOMAIN RESTRICTION of '... and then stops': claimed for cores whose sampler is unique - what Proxy builds itself from a "
+        "pattern string / list of strings (ProxyGroup('__core__', core, unique=True)) and what the shipped collections use "
+        "(DielsAlderProxy: ProxyGroup('__DA_core__', ..., unique=True)); a user-supplied core ProxyGroup with the default "
+        "non-unique sampler is re-sampled for ever and the iteration never stops (coverage.notes.non_unique_core_sampler_never_stops: "
+        "islice(p, 50) returns 50 for a configuration with 3 combinations) - outside the claimed domain, reported in the evidence only",
+        "KNOWN FINDING K7 (bond conservation at the iter(Proxy) level): the conservation clause is applied to ALL samples of "
+        "every iter-level implementation output; it FAILS for configurations whose build_graphs results carry parallel bonds "
+        "(Proxy('C1{g}1', ProxyGroup('g','O')): two pattern bonds, one C-O bond in the sample - the MultiGraph->Graph collapse in "
+        "Proxy.__generate drops them).  Such a failure is classified K7 only when the implementation's enumeration equals the "
+        "model's, the clause restricted to samples without parallel bonds in their pre-image holds (model flag sideOk/noParallel) "
+        "and the model counts at least one pre-image with parallel bonds; every other failure is a VIOLATION.  The theorems "
+        "(C14.iter_conserved ...) prove conservation under the side condition only",
         "graph.copy() in replace_next_node is not modelled (unobservable: compose re-adds all edges; op 'next' compares exact adjacency)",
         "the generated tables (harness/gen_tables_c14.py) are the effective Proxy.__groups dictionaries; label references are "
         "extracted with the real parser and cross-checked by the driver against the parsed configuration on every run",
@@ -343,10 +421,31 @@ def run(tier, seed):
         explanation="theorems in lean/FGVerif/Proofs/C14*.lean about Model/C14.lean (+C13); table obligations da_count_pos/neg by kernel "
                     "evaluation of the count formula on the generated tables; model tied to fgutils.proxy by differential testing; "
                     "executable spec (count formula, no group label left, contiguous ids, conservation at the build_graphs level and - "
-                    "for samples without parallel bonds to collapse; symbols for all samples - at the iter(Proxy) level) on implementation outputs; "
+                    "for ALL samples, symbols and bond labels - at the iter(Proxy) level; failures caused by the collapse of parallel bonds are "
+                    "the recorded known finding K7, decided per case) on implementation outputs; "
                     + genparsed.EXPLANATION + " — for C14: GenParsed.da_pos_refs_parsed / da_neg_refs_parsed / common_refs_parsed "
                     "(label references and anchors of Generated/C14.lean from the pattern strings) and proxy_patterns_parsed (the model "
                     "returns the real parser's graph on every shipped proxy pattern)")
+
+
+def non_stopping_core_probe():
+    """`Proxy(ProxyGroup("core", "C{g}"), ProxyGroup("g", ["N", "O", "C"]))`: 3 combinations, but the core group's
+    default sampler is not unique, so `Proxy.__generate` re-samples the core for ever; `islice(p, 50)` returns 50.
+    The same configuration with the core given as a string (what Proxy wraps into a unique core group) stops after 3."""
+    from itertools import islice
+    from fgutils.proxy import Proxy, ProxyGroup
+    try:
+        g = ProxyGroup("g", ["N", "O", "C"])
+        n_group_core = len(list(islice(Proxy(ProxyGroup("core", "C{g}"), g), 50)))
+        n_string_core = len(list(islice(Proxy("C{g}", g), 50)))
+        n_unique_group_core = len(list(islice(Proxy(ProxyGroup("core", "C{g}", unique=True), g), 50)))
+        return {"config": "core C{g}, group g = [N, O, C] (3 combinations)",
+                "islice(Proxy(ProxyGroup('core','C{g}') [default non-unique sampler], g), 50)": n_group_core,
+                "islice(Proxy('C{g}', g), 50)": n_string_core,
+                "islice(Proxy(ProxyGroup('core','C{g}', unique=True), g), 50)": n_unique_group_core,
+                "reading": "out of the claimed domain: 'then stops' is claimed for cores whose sampler is unique"}
+    except Exception as e:  # noqa: evidence only
+        return {"error": "%s: %s" % (type(e).__name__, str(e)[:200])}
 
 
 def groups_from_meta(meta):
@@ -363,7 +462,7 @@ def replay(path):
     meta = d.get("meta") or {}
     if not d.get("request_line") or "groups" not in meta:
         print("replay file carries no re-runnable configuration (kind=%s): %s; re-run ./check C14" % (d.get("kind"), d.get("theorem_or_correspondence")))
-        return 1
+        return 2   # nothing to re-run: not a VIOLATION (exit 1 iff a VIOLATION line is printed)
     op = parse_sx(d["request_line"])[1]
     groups = groups_from_meta(meta)
     multi = meta["multi"]
@@ -374,7 +473,7 @@ def replay(path):
     elif op == "generate":
         cores = meta.get("cores", [meta["core"]])
         case = Case([Atom("C14"), Atom("generate"), cfg, [enc_graph(Parser(use_multigraph=multi).parse(c)) for c in cores], meta.get("aam", True)],
-                    call_impl(impl_generate, cores, groups, meta.get("aam", True), multi, meta.get("history", False)), meta=meta)
+                    call_impl(impl_generate, cores, groups, meta.get("aam", True), multi, meta.get("history", False), meta.get("protocol")), meta=meta)
     else:
         case = Case([Atom("C14"), Atom("next"), cfg, core_g],
                     call_impl(impl_next, Parser(use_multigraph=multi).parse(meta["core"]), groups, multi), meta=meta)
@@ -383,6 +482,11 @@ def replay(path):
     drv.close()
     print("replay %s: implementation output %s the specification; model %s implementation"
           % (path, "VIOLATES" if o.spec_fail else "meets", "==" if o.corr else "!="))
+    if op == "generate" and o.spec_fail and o.corr and len(o.extra) >= 4 and o.extra[3] == "1" and o.extra[2] not in ("0", "_"):
+        k7 = next((f for f in load_known_findings() if f.get("id") == "K7" and f.get("status") == "open"), None)
+        if k7 is not None:
+            print("KNOWN-FINDING: property=C14 %s [K7]" % k7["what"])
+            return 0
     if o.spec_fail or not o.corr:
         print("VIOLATION property=C14 replay=%s%s" % (path, "" if o.spec_fail else " no-failing-input-found"))
         return 1
@@ -417,6 +521,22 @@ def thorough_shipped(r, which, contract, reaction=False):
         mk = set(map(str, model_fp))
         first_diff = next((i for i, a in enumerate(impl_fp) if str(a) not in mk), 0)
     r.notes["thorough:%s" % which]["same_order"] = same_order
+    # bond conservation at the iter(Proxy) level for ALL samples of the shipped collection: the implementation's samples are
+    # the model's one by one (fingerprints), the model's build_graphs results are conserved (rep[5]) and none of them carries
+    # parallel bonds (rep[6] = 0: nothing for the MultiGraph->Graph collapse to drop); with parallel bonds and
+    # implementation == model it is the known finding K7
+    n_side_fail = int(rep[6]) if ok and len(rep) > 6 and str(rep[6]).isdigit() else None
+    r.notes["thorough:%s" % which]["build_results_with_parallel_bonds(K7_scope)"] = n_side_fail
+    if n_side_fail and first_diff is None and len(model_fp) == len(impl_fp):
+        from common import Outcome
+        k7 = next((f for f in load_known_findings() if f.get("id") == "K7" and f.get("status") == "open"), None)
+        if k7 is not None:
+            r.known_hits.append((k7, Outcome(Case([Atom("C14"), Atom("enum_fp"), Atom(which)], None, compare_model=False), rep)))
+        else:
+            pth = r.write_replay("failing-input", "iter_conservation_" + which, {
+                "spec_clause": "bond labels of every sample = union of the chosen patterns' (iter(Proxy) level)",
+                "collection": which, "build_results_with_parallel_bonds": n_side_fail})
+            r.violation_lines.append("VIOLATION property=C14 replay=%s" % pth)
     if not ok or len(model_fp) != len(impl_fp) or first_diff is not None or (ok and rep[5] != "1"):
         pth = r.write_replay("correspondence", "enum_" + which, {
             "theorem_or_correspondence": ["complete enumeration of %s: model vs iter(Proxy)" % which],
